@@ -137,15 +137,18 @@ def supported (tm : TypeMap) : Sp → Bool
   | .dict585 k v | .dictTyping k v | .mapSub k v => supported tm k && supported tm v
   | .mapCall k v => supported tm k && supported tm v && isFieldExpr k && isFieldExpr v
   | .optional x => supported tm x && !unionLike x
+  /- `None` may be either member (`Union[None, int]`, `AnyOf[None, Integer]`, `None | int`) -/
   | .union x y =>
-    supported tm x && !unionLike x && (isNoneLit y || (supported tm y && !unionLike y)) && distinctObjs tm x y
-  | .anyOf x y => supported tm x && (isNoneLit y || supported tm y)
+    (isNoneLit x || (supported tm x && !unionLike x)) && (isNoneLit y || (supported tm y && !unionLike y))
+    && distinctObjs tm x y
+  | .anyOf x y => (isNoneLit x || supported tm x) && (isNoneLit y || supported tm y)
   | .pipe x y =>
-    supported tm x
-    && (if isFieldExpr x then isNoneLit y || supported tm y
-        else plainSp x
-             && (isNoneLit y || (supported tm y && plainRightSp y && !unionLike y))
-             && distinctObjs tm x y)
+    if isNoneLit x then supported tm y && plainRightSp y && !unionLike y
+    else supported tm x
+      && (if isFieldExpr x then isNoneLit y || supported tm y
+          else plainSp x
+               && (isNoneLit y || (supported tm y && plainRightSp y && !unionLike y))
+               && distinctObjs tm x y)
 
 /-! ### field level -/
 
@@ -189,8 +192,8 @@ def fieldSupported (O : Oracles) (tm : TypeMap) (_future : Bool) (fs : FieldSp) 
       | .eq v _ => scalarDefault v && fs.mode == .ann
       | .kw v _ => scalarDefault v && kwAllowed fs.ty && (truthy v || defaultOk O (denote fs.ty) v))
 
-/-- the expression only uses documented forms: `items=` is given fields, `None` only appears as the
-    second alternative of `Union` / `AnyOf` / `|` -/
+/-- the expression only uses documented forms: `items=` is given fields, `None` only appears as
+    one alternative of `Union` / `AnyOf` / `|` -/
 def documentedSp : Sp → Bool
   | .builtin _ | .fcls _ | .finst _ | .lit _ _ => true
   | .noneLit => false
@@ -201,7 +204,8 @@ def documentedSp : Sp → Bool
   | .dict585 k v | .dictTyping k v | .mapSub k v => documentedSp k && documentedSp v
   | .mapCall k v => documentedSp k && documentedSp v && isFieldExpr k && isFieldExpr v
   | .optional x => documentedSp x
-  | .union x y | .anyOf x y | .pipe x y => documentedSp x && (isNoneLit y || documentedSp y)
+  | .union x y | .anyOf x y | .pipe x y =>
+    (isNoneLit x || documentedSp x) && (isNoneLit y || documentedSp y) && !(isNoneLit x && isNoneLit y)
 
 /-- the domain of the statement at field level: documented forms, an assignment declares a field
     expression, `default=` sits in a call of a Field class, defaults are scalar literals -/
